@@ -234,7 +234,9 @@ class CodeBase:
                 "Each pattern in 'exclude_patterns' must be a string.",
             )
         self._directories = [Path(d).resolve() for d in directories]
-        self._excludes = exclude_patterns
+        # Copy: the default value is shared by every call, and the caller's
+        # list is the caller's.
+        self._excludes = list(exclude_patterns)
 
     def __repr__(self):
         return (
